@@ -17,6 +17,9 @@ impl Typstyle {
         source: &Source,
         utf8_range: Range<usize>,
     ) -> Result<(Range<usize>, String), Error> {
+        // The range may end past the text. Clamp it before slicing.
+        let len = source.len_bytes();
+        let utf8_range = utf8_range.start.min(len)..utf8_range.end.min(len);
         // Trim the give range to ensure no space aside.
         let range = utils::trim_range(source.text(), utf8_range);
 
